@@ -178,6 +178,16 @@ func (h *Hub) CancelPairingWithSKI(ski string) {
 
 	if existingC := h.connectionForSKI(ski); existingC != nil {
 		existingC.AbortPendingHandshake()
+
+		// a handshake which is not waiting for trust can not be aborted that way:
+		// close the connection, otherwise it would complete later and trust the service again
+		switch state, _ := existingC.ShipHandshakeState(); state {
+		case model.SmeStateComplete, model.SmeStateError,
+			model.SmeHelloStateAbort, model.SmeHelloStateAbortDone,
+			model.SmeHelloStateRemoteAbortDone, model.SmeHelloStateRejected:
+		default:
+			existingC.CloseConnection(false, 4452, "Node rejected by application")
+		}
 	}
 
 	service := h.ServiceForSKI(ski)
